@@ -153,8 +153,10 @@ func H_C14_Seq(shape int) {
 	s.FaultAt = verifrt.Intn("fault_at", 0, 4)
 	// the statement fault may be a lost connection when it hits a call inside a
 	// transaction (driver.ErrBadConn, sticky for that transaction); outside
-	// transactions database/sql retries bad connections itself, below the boundary
+	// transactions database/sql repeats the call on other connections, below the
+	// boundary, and the error reaches gorm when they all fail
 	s.BadConn = verifrt.Bool("bad_conn")
+	s.BadConnOutside = s.BadConn
 	verifrt.Assume(verifrt.Or(!s.BadConn, s.FaultAt != 0))
 	verifrt.Assume(verifrt.Or(s.PrepareFaultAt == 0, s.FaultAt == 0))
 	db := openPrepared(s, &gorm.Config{SkipDefaultTransaction: true})
